@@ -112,7 +112,13 @@ func (s *session) loopWrite() {
 		}
 
 		verifhook.At2("session.loopWrite.got", s, req)
-		req.Wait()
+		// the reader closes quit when the connection is gone (peer, Stop):
+		// nobody is left to write to, do not wait for the backend.
+		select {
+		case <-req.done:
+		case <-s.quit:
+			return
+		}
 		verifhook.At2("session.loopWrite.waited", s, req)
 		// TODO(kirk91): abstract response
 		resp := req.Response()
